@@ -141,6 +141,18 @@ class Vertex(base.BaseObject):
         """
         return tuple(self._links)
 
+    def _qa_stats(self) -> list[int]:
+        """
+        Return this vertex's cache statistics record, creating it if needed.
+
+        **FOR INTERNAL USE ONLY!!**
+
+        The record is normally created by ``__init__``; a vertex that came
+        into being another way (un-pickled in a new interpreter, or alive
+        across a reset of the statistics) gets a fresh one on first use.
+        """
+        return self._CACHE_STATS.setdefault(self.uid, [0, 0, 0, 0])
+
     def _qa_neighbors_get(self, *args):
         """
         Check for and return quick-access neighbors cache data.
@@ -159,11 +171,11 @@ class Vertex(base.BaseObject):
             return self._QA_NB_INVALID
 
         if args in self.__qa_nb_cache:
-            self._CACHE_STATS[self.uid][0] += 1
+            self._qa_stats()[0] += 1
 
             return self.__qa_nb_cache[args]
 
-        self._CACHE_STATS[self.uid][1] += 1
+        self._qa_stats()[1] += 1
         return self._QA_NB_INVALID
 
     def _qa_neighbors_invalidate(self):
@@ -183,7 +195,7 @@ class Vertex(base.BaseObject):
         self.__qa_nb_cache = {}
         if not self.NEIGHBOR_CACHING:
             return
-        self._CACHE_STATS[self.uid][2] += 1
+        self._qa_stats()[2] += 1
 
     def _qa_neighbors_insert(self, answer, *args):
         """
@@ -199,7 +211,7 @@ class Vertex(base.BaseObject):
         """
         if not self.NEIGHBOR_CACHING:
             return
-        self._CACHE_STATS[self.uid][3] += 1
+        self._qa_stats()[3] += 1
         self.__qa_nb_cache[args] = answer
 
     def add_to_link(self, link: Link):
